@@ -252,6 +252,7 @@ func cmdCheck(args []string) {
 			failed = append(failed, o)
 		}
 	}
+	failed = append(failed, v.deadReturns(obls)...)
 	for fn, rc := range retCover {
 		if rc[0] > 0 && rc[0] == rc[1] {
 			failed = append(failed, &Obligation{Name: fn + "/cover:no-return-reachable", Fn: fn, Kind: "cover", Result: "unsat",
@@ -404,4 +405,39 @@ func (v *Verifier) makeReplay(o *Obligation, repo string) *Replay {
 	}
 	v.replayModel(o, r, repo)
 	return r
+}
+
+// deadReturns is the vacuity guard at return statements: a return statement none of whose paths is
+// feasible is either dead code (declared so in the contract: "dead return N") or the sign of
+// contradictory assumptions on the way to it (a proof through it would be vacuous).
+func (v *Verifier) deadReturns(obls []*Obligation) []*Obligation {
+	type key struct {
+		fn   string
+		site int
+	}
+	tot, dead := map[key]int{}, map[key]int{}
+	src := map[key]string{}
+	for _, o := range obls {
+		if o.IsCover && o.Kind == "cover" && strings.Contains(o.Name, "cover:return") {
+			k := key{o.Fn, o.RetSite}
+			tot[k]++
+			src[k] = o.Src
+			if o.Result == "unsat" {
+				dead[k]++
+			}
+		}
+	}
+	var out []*Obligation
+	for k, n := range tot {
+		declared := false
+		if c := v.spec.Contracts[k.fn]; c != nil {
+			_, declared = c.DeadRets[k.site]
+		}
+		if dead[k] == n && !declared {
+			out = append(out, &Obligation{Name: fmt.Sprintf("%s/cover:dead-return#%d", k.fn, k.site), Fn: k.fn, Kind: "cover", Result: "unsat", Src: src[k],
+				Output: fmt.Sprintf("return statement %d (%s) is unreachable on all %d paths under the contract and is not declared dead: dead code, or contradictory assumptions (vacuous proof)", k.site, src[k], n)})
+		}
+	}
+	sort.Slice(out, func(i, j int) bool { return out[i].Name < out[j].Name })
+	return out
 }
